@@ -558,4 +558,38 @@ theorem applyMasks_forms (oneMask : String → Nat) : ∀ (l : List (Form × Nat
   | (f, m) :: rest => by
     simp only [List.map_cons, applyMasks, dataCreate_get, applyMasks_forms oneMask rest, bind, Except.bind]
 
+/-! ### raw context arrays -/
+
+theorem storeContext_visible {α : Type} (slots new : List α) (h : new.length ≤ slots.length) :
+    (storeContext slots new).1.take (storeContext slots new).2 = new
+    ∧ (storeContext slots new).1.length = slots.length := by
+  unfold storeContext
+  simp only [List.take_of_length_le h]
+  constructor
+  · simp
+  · simp; omega
+
+theorem ctxCall_lengths {α : Type} (st : CtxState α) (c : CtxCall α) :
+    (st.call c).pre.length = st.pre.length ∧ (st.call c).post.length = st.post.length := by
+  cases c with
+  | pre t =>
+    have := (storeContext_visible st.pre (t.reverse.take st.pre.length) (by simp; omega)).2
+    simp [CtxState.call, this]
+  | post t =>
+    have := (storeContext_visible st.post (t.take st.post.length) (by simp; omega)).2
+    simp [CtxState.call, this]
+  | add t =>
+    simp only [CtxState.call]
+    split <;> simp
+
+theorem ctxCalls_lengths {α : Type} (cs : List (CtxCall α)) (st : CtxState α) :
+    (st.calls cs).pre.length = st.pre.length ∧ (st.calls cs).post.length = st.post.length := by
+  induction cs generalizing st with
+  | nil => simp [CtxState.calls]
+  | cons c cs ih =>
+    have h := ih (st.call c)
+    have h2 := ctxCall_lengths st c
+    simp only [CtxState.calls, List.foldl_cons] at h ⊢
+    omega
+
 end RbModel.Arabic
